@@ -144,4 +144,16 @@ theorem track_prefix (g : Geo P D) (std : Bool) (now : Nat) (st : Plane P D) (a 
     · exact ⟨[st.coords], by simp⟩
     · exact ⟨[], by simp⟩
 
+/-- **the text rendering of the tracker lists exactly the aircraft with details, each once, in address order** -/
+theorem display_iff_details (s : Airplanes P D) (k : Nat) : k ∈ displayKeys s ↔ (∃ p, (k, p) ∈ s) ∧ hasDetails s k = true := by
+  unfold displayKeys
+  simp only [List.mem_map, List.mem_filter]
+  constructor
+  · rintro ⟨⟨k', p⟩, ⟨hm, hd⟩, rfl⟩; exact ⟨⟨p, hm⟩, hd⟩
+  · rintro ⟨⟨p, hm⟩, hd⟩; exact ⟨(k, p), ⟨hm, hd⟩, rfl⟩
+
+theorem display_is_sublist_of_keys (s : Airplanes P D) : (displayKeys s).Sublist (s.map (·.1)) := by
+  unfold displayKeys
+  exact List.Sublist.map _ List.filter_sublist
+
 end Adsb.C14
